@@ -1,3 +1,4 @@
+mod c18;
 mod c19;
 mod common;
 mod driver;
@@ -141,6 +142,7 @@ fn main() {
     let id = args.get(1).cloned().unwrap_or_default();
     let code = match id.as_str() {
         "C19" => dispatch::<c19::C19>(&cmd, &args),
+        "C18" => dispatch::<c18::C18>(&cmd, &args),
         _ => usage(),
     };
     std::process::exit(code);
